@@ -793,6 +793,11 @@ class Interp:
             inner.hooks = self.hooks
             roots = inner.roots()
             err = None
+            from .probe import _TLS as _tls
+            ended = []
+            if not hasattr(_tls, 'nested_end'):
+                _tls.nested_end = []
+            _tls.nested_end.append(lambda: ended.append(len(inner.log)))
             try:
                 ip = st['prog']
                 if ip.get('till') is not None:
@@ -805,13 +810,15 @@ class Interp:
                 err = inner.describe(e)
                 if err[0] == 'other' and isinstance(e, RuntimeError) and hasattr(e, 'result'):
                     err = ('leak', e.result)
-            seen = len(inner.log)            # later entries stem from closing abandoned coroutines
-            for r in roots:
-                try:
-                    r.close()
-                except BaseException:
-                    pass
+            _tls.nested_end.pop()
+            # later entries stem from closing abandoned coroutines
+            seen = ended[0] if ended else len(inner.log)
+            # (like a program would, the harness simply lets go of the nested simulation's activities)
+            del roots
             self.nested.append((st.get('id'), [tuple(x[1:6]) for x in inner.log[:seen]], err))
+            if not hasattr(self, 'nested_objs'):
+                self.nested_objs = []
+            self.nested_objs.append((inner, seen))
             ev(name, idx, 'nested_end', err)
         elif op == 'gc_collect':
             import gc as _gc
@@ -894,10 +901,13 @@ def execute(prog, probe=None, wall=60, faults=(), sample=False, observe=None, ho
                                      tuple(f.get('token', ()))))
                 t.cancel(*f.get('token', ()))
         probe.before = before
+    end_hint = []
+    probe.on_end = lambda: end_hint.append(it.seq)
     outcome, exc, p = run_probed(roots, start=num(prog.get('start', 0)),
                                  till=None if till is None else num(till),
                                  probe=probe, wall=wall)
-    it.end_seq = it.seq
+    # (entries written while usim unwinds activities that were still suspended at the end are not observations)
+    it.end_seq = end_hint[0] if end_hint else it.seq
     it.roots_alive = roots
     if sample:
         it.samples.append((p.k, None, it.seq, {n: (t.status.name, bool(t.done)) for n, t in it.tasks.items()}))
